@@ -2,7 +2,7 @@
    range.  Only the property theorems, each closed by [exact]; proofs live in
    Midi/MidiProofs.v, the model in Midi/MidiModel.v, the Spec in Midi/MidiSpec.v. *)
 From Coq Require Import List ZArith QArith.
-From RtoscV Require Import Midi.MidiModel Midi.MidiSpec Midi.MidiProofs Midi.MidiFloat Midi.MidiProto Midi.MidiNrt Midi.MidiSilent Midi.MidiInv Midi.MidiRefine Midi.MidiRound Midi.MidiValues Midi.MidiCapacity Midi.MidiCross.
+From RtoscV Require Import Midi.MidiModel Midi.MidiSpec Midi.MidiProofs Midi.MidiFloat Midi.MidiProto Midi.MidiNrt Midi.MidiSilent Midi.MidiInv Midi.MidiRefine Midi.MidiRound Midi.MidiValues Midi.MidiCapacity Midi.MidiCross Midi.MidiRegress.
 Import ListNotations.
 Local Open Scope Z_scope.
 
@@ -23,10 +23,17 @@ Theorem C20_compose_14bit : forall s id v t old c,
     0 <= compose14 (me_coarse t) v old < 16384.
 Proof. exact compose_14bit. Qed.
 
-(* D19: the statement for ALL histories is false of the faithful model *)
-Theorem C20_refuted :
+(* D19, repaired (fix: snapshots say which controller's midi-use-CC they
+   answer, only such a snapshot releases a pending controller, a midi-use-CC
+   that finds no address is answered with the unchanged mapping).  The witness
+   against the functions as they were (MidiRegress: rt_deliver_old released the
+   oldest pending controller on every midi-bind, nrt_useFreeID_old did not
+   answer when no address was queued): controller 5 takes two queued
+   addresses, p1's assignment is lost, the never-assigned controller 0 drives
+   p2. *)
+Theorem C20_d19_regress :
   exists ports evs tr fin,
-    run ports world0 evs = (tr, Some fin) /\
+    run_old19 ports world0 evs = (tr, Some fin) /\
     assigned_targets 5 tr = [(0, true); (1, true)] /\
     nth_error evs 20 = Some (ECC 5 67 1 false) /\ nth_error tr 20 = Some [] /\
     inv_find 1 (inv_map (wn fin)) = Some (2, 5, -1, {| bmin := (0, 0); bmax := (1, 0) |}) /\
@@ -35,6 +42,24 @@ Theorem C20_refuted :
     option_map msgs_of (nth_error tr 21) = Some [ {| maddr := 2; mvalue := VFloat (bi_float {| bmin := (-3, -1); bmax := (11, -2) |} 9) |} ] /\
     nocross evs tr = false.
 Proof. exact d19_refuted. Qed.
+
+(* the same history on the repaired functions: 5 is not offered a second time,
+   takes p0 only and drives it, p1 stays queued until 5 is free again, 0 is
+   silent; the records are the abstract specification's although a bind crosses
+   the offer (nocross = false) *)
+Theorem C20_d19_repaired :
+  exists tr fin,
+    run d19_ports world0 d19_history = (tr, Some fin) /\
+    nocross d19_history tr = false /\
+    tr = arun d19_ports astate0 d19_history /\
+    nth_error tr 12 = Some [] /\
+    assigned_targets 5 tr = [(0, true)] /\
+    nth_error tr 17 = Some [OM {| maddr := 0; mvalue := VInt 66 |}] /\
+    nth_error tr 20 = Some [OU 5] /\
+    learnQ (wn fin) = [(1, true)] /\ chN fin = [5] /\
+    assigned_targets 0 tr = [] /\
+    nth_error tr 21 = Some [].
+Proof. exact d19_repaired. Qed.
 
 (* Within the parameter's [min,max] and monotone - for the EXECUTABLE model
    (run_cb = the callbacks with rf := r24, rd := r53), no rounding hypothesis:
@@ -79,7 +104,8 @@ Proof. exact cb_monotone_7bit. Qed.
    midi-use-CC <id> that reaches the non-realtime side finds a queued address
    (the oldest: useFreeID takes the head) and a controller that occurs in no
    entry of the current snapshot - so it is never given a second address.
-   Full statement (all histories): false, see C20_refuted. *)
+   Full statement (all histories): open; it was false before the D19 fix
+   (C20_d19_regress), the tie and the Spec oracle cover crossing histories. *)
 Theorem C20_nocross_learn_partial : forall ports evs tr fin U,
   (length U <= 32)%nat -> incl (ccids evs) U -> Forall (fun x => 0 <= x) (ccids evs) ->
   run ports world0 evs = (tr, fin) -> nocross evs tr = true ->
@@ -178,7 +204,7 @@ Proof. exact nocross_crash_free. Qed.
 Theorem C20_learn_oldest : forall ports n id a c q, NI ports n -> learnQ n = (a, c) :: q ->
   0 <= id -> ~ In id (mids (omap (nstorage n))) ->
   exists n' s' p loc,
-    nrt_useFreeID ports n id = Some (n', [RBind s']) /\ NI ports n' /\ nstorage n' = Some s' /\
+    nrt_useFreeID ports n id = Some (n', [RBind s' id]) /\ NI ports n' /\ nstorage n' = Some s' /\
     learnQ n' = q /\ SW ports s' /\ nthZ ports a = Some p /\
     find_map id (mapping s') = Some (id, c, loc) /\
     nthZ (callbacks s') loc = Some (mk_cb p a) /\
@@ -195,7 +221,7 @@ Theorem C20_unmap_stops : forall n a (c : bool) im s,
   let kill := if c then im_co im else im_fi im in
   kill <> -1 ->
   forall n' out, nrt_unmap n a c = Some (n', out) ->
-  exists s', out = [RBind s'] /\ nstorage n' = Some s' /\
+  exists s', out = [RBind s' (-1)] /\ nstorage n' = Some s' /\
     find_map kill (mapping s') = None /\
     (forall v, store_handleCC s' kill v = Some (s', None)) /\
     (forall id', id' <> kill -> find_map id' (mapping s') = find_map id' (mapping s)) /\
@@ -203,7 +229,7 @@ Theorem C20_unmap_stops : forall n a (c : bool) im s,
 Proof. exact unmap_stops. Qed.
 
 (* after a midi-bind the realtime side works from the snapshot it carried *)
-Theorem C20_bind_installs : forall r ns r', rt_deliver r (RBind ns) = Some r' ->
+Theorem C20_bind_installs : forall r ns ans r', rt_deliver r (RBind ns ans) = Some r' ->
   exists s', rstorage r' = Some s' /\ mapping s' = mapping ns /\ callbacks s' = callbacks ns.
 Proof. exact bind_installs. Qed.
 
@@ -229,7 +255,8 @@ Proof. exact nocross_silent. Qed.
    exactly the specification's address AND value; none for unassigned
    controllers; unMap / clear / relearn change only what the table says; the
    two 7-bit halves survive every rebuilt snapshot (cloneValues).
-   _partial: nocross (the full statement is refuted, C20_refuted) and
+   _partial: nocross (before the D19 fix the full statement was false,
+   C20_d19_regress; for crossing histories it is open) and
    <= 32 controllers (tight: C20_capacity_refuted). *)
 Theorem C20_refines_spec_partial : forall ports evs tr fin U,
   (length U <= 32)%nat -> incl (ccids evs) U -> Forall (evok ports) evs ->
